@@ -194,11 +194,12 @@ class SmtRound(object):
     def sort(self, f):
         return compile_term(f, self.cmemo)[0]
 
-    def wrapper(self, s):
-        w = self.wraps.get(s)
+    def wrapper(self, s, k=0):
+        """k = 0: the symbol a non-Boolean term is equated with; k > 0: canonical leaves for signatures"""
+        w = self.wraps.get((s, k))
         if w is None:
             w = self.mgr.Symbol(WRAP % len(self.wraps), mk_type(self.env, s))
-            self.wraps[s] = w
+            self.wraps[(s, k)] = w
         return w
 
     def texts(self, f):
@@ -272,28 +273,44 @@ def _show(n):
         return "<%s>" % op.op_to_str(n.node_type())
 
 
-def canon_constants(env, sub, why, fails):
-    """replace numeric constant children by 1 while the failure persists (one root cause, one signature)"""
-    mgr = env.formula_manager
+def canon_children(smt, sub, why, fails):
+    """replace the children of the minimal failing term by canonical ones while the same failure persists
+    (a symbol of the same sort; for a Boolean operator argument also its negation; for a numeric constant
+    also 1), so that one root cause gives one or very few signatures"""
+    mgr = smt.mgr
+    if sub.node_type() in QUANT or sub.node_type() == op.ARRAY_VALUE:
+        return sub, why
     for i in range(len(sub.args())):
         a = sub.arg(i)
-        if a.is_int_constant():
-            one = mgr.Int(1)
-        elif a.is_real_constant():
-            one = mgr.Real(1)
-        else:
+        if a.node_type() == op.SYMBOL and a.symbol_name().startswith(WRAP[:-2]):
             continue
-        if a is one:
-            continue
-        args = list(sub.args())
-        args[i] = one
         try:
-            cand = mgr.create_node(node_type=sub.node_type(), args=tuple(args), payload=sub._content.payload)
-        except Exception:
+            s = smt.sort(a)
+        except (IllTyped, Unsupported):
             continue
-        x = fails(cand)
-        if x and x[0] == why[0]:
-            sub, why = cand, x
+        w = smt.wrapper(s, i + 1)
+        cands = []
+        if not (a.node_type() == op.SYMBOL and name_class(a.symbol_name()) != "simple"):
+            cands.append(w)
+            if s == BOOL and len(a.args()) > 0:
+                cands.append(mgr.Not(w))
+        if a.is_int_constant():
+            cands.append(mgr.Int(1))
+        elif a.is_real_constant():
+            cands.append(mgr.Real(1))
+        for c in cands:
+            if c is a:
+                break
+            args = list(sub.args())
+            args[i] = c
+            try:
+                cand = mgr.create_node(node_type=sub.node_type(), args=tuple(args), payload=sub._content.payload)
+            except Exception:
+                continue
+            x = fails(cand)
+            if x and x[0] == why[0]:
+                sub, why = cand, x
+                break
     return sub, why
 
 
@@ -457,7 +474,7 @@ def make(env, profile, res, part):
                 if x:
                     sub, why = v, x
                     break
-        sub, why = canon_constants(env, sub, why, fails)
+        sub, why = canon_children(smt, sub, why, fails)
         sig = term_sig(mode, sub, why[0])
         if (sub, sig) in reported:
             res.count("violations_same_subterm")
@@ -495,7 +512,8 @@ def make(env, profile, res, part):
                 info = {}
                 r = hr.verdict(f, info)
                 cache[("h", f)] = r or False
-                res.outcome("hr:%s" % (info.get("hr", "") if not r else r[0]))
+                res.outcome("hr:%s" % (r[0] if r else "same object" if info.get("hr") == "identical" else
+                                       "different object with the same sort, meaning and flattened text"))
                 if info.get("hr") == "different-object":
                     res.count("hr_regrouped")
                     if not r and len(res.samples) < 2:
@@ -980,7 +998,8 @@ def script_verdict1(env, texts, dag, res=None):
                 break
         return ("serialize-exception", pos, "serialising the parsed script %r raised %r" % (t, e))
     t2 = buf.getvalue()
-    gen = SmtLibParser(env).get_command_generator(StringIO(t2))
+    p2 = SmtLibParser(env)
+    gen = p2.get_command_generator(StringIO(t2))
     i = 0
     while True:
         try:
@@ -999,11 +1018,17 @@ def script_verdict1(env, texts, dag, res=None):
         i += 1
     if i != len(s1.commands):
         return ("length", None, "script %r is re-serialised as %r which has %d commands" % (t, t2, i))
+    if res is not None:
+        # term annotations are not part of the command list: counted, not judged
+        a1 = getattr(s1.annotations, "_annotations", None)
+        if a1:
+            a2 = getattr(p2.cache.annotations, "_annotations", None)
+            res.count("script_annotations:%s" % ("kept" if a1 == a2 else "changed"))
     return None
 
 
-def script_verdict(env, texts):
-    rt, rd = script_verdict1(env, texts, False), script_verdict1(env, texts, True)
+def script_verdict(env, texts, res=None):
+    rt, rd = script_verdict1(env, texts, False, res), script_verdict1(env, texts, True, res)
     if rt is None and rd is None:
         return None
     if rt is not None and rd is not None and rt[0] == rd[0]:
@@ -1108,7 +1133,7 @@ def run_script_shard(args):
             res.count("script_sequences")
             if any(c.args for c in cmds):
                 res.count("nontrivial")
-            r = script_verdict(env, _texts(cmds, prelude))
+            r = script_verdict(env, _texts(cmds, prelude), res)
             if r is None:
                 res.outcome("script:equivalent command list")
                 if len(cmds) == maxlen:
@@ -1197,18 +1222,35 @@ def run(ctx):
                         % (ctx.res.counters["hr_sem_capped"], HR_CAP))
 
 
-def replay(rec):
-    case = rec["case"]
+def _dump_symbols(j, out):
+    """(name, sort) of every symbol mentioned in a DSL term, in order of first appearance"""
+    if not isinstance(j, list) or not j:
+        return out
+    k = j[0]
+    if k == "sym" or k == "app":
+        if (j[1], repr(j[2])) not in [(n, repr(t)) for n, t in out]:
+            out.append((j[1], j[2]))
+        for a in (j[3:] if k == "app" else []):
+            _dump_symbols(a, out)
+    elif k in ("forall", "exists"):
+        for n, t in j[1]:
+            if (n, repr(t)) not in [(n2, repr(t2)) for n2, t2 in out]:
+                out.append((n, t))
+        _dump_symbols(j[2], out)
+    else:
+        for a in j[1:]:
+            _dump_symbols(a, out)
+    return out
+
+
+def _replay_term(case, reverse):
     env = Environment()
     push_env(env)
     try:
-        if case.get("mode") == "script":
-            texts = [c.text for c in (PRELUDE if case.get("prelude") else [])] + list(case["commands"])
-            r = script_verdict(env, texts)
-            shown = " ".join(case["commands"])
-            if r is None or r[0] in ("unsupported", "input-rejected"):
-                return True, "script %s round-trips to an equivalent command list (%s)" % (shown, r and r[0])
-            return False, "%s: %s" % (r[0], r[2])
+        if reverse:
+            # the outcome may depend on the order in which the symbols were created (hash order of sets)
+            for n, t in reversed(_dump_symbols(case["term"], [])):
+                env.formula_manager.Symbol(n, mk_type(env, termio.norm_sort(t)))
         f = termio.build(env, case["term"])
         shown = termio.short(case["term"])
         if case.get("mode") == "hr":
@@ -1225,3 +1267,25 @@ def replay(rec):
         return False, "smtlib(%s): %s: %s" % (shown, r[0], r[1])
     finally:
         pop_env()
+
+
+def replay(rec):
+    case = rec["case"]
+    if case.get("mode") == "script":
+        env = Environment()
+        push_env(env)
+        try:
+            texts = [c.text for c in (PRELUDE if case.get("prelude") else [])] + list(case["commands"])
+            r = script_verdict(env, texts)
+            shown = " ".join(case["commands"])
+            if r is None or r[0] in ("unsupported", "input-rejected"):
+                return True, "script %s round-trips to an equivalent command list (%s)" % (shown, r and r[0])
+            return False, "%s: %s" % (r[0], r[2])
+        finally:
+            pop_env()
+    ok, msg = _replay_term(case, False)
+    if ok:
+        ok2, msg2 = _replay_term(case, True)
+        if not ok2:
+            return ok2, msg2 + " [symbols created in reverse order of appearance]"
+    return ok, msg
